@@ -115,6 +115,11 @@ func operatorScope(r *Run, npkg *packages.Package) (map[*types.Named]bool, []*as
 			add(fd, 0)
 		}
 	}
+	// the constructors of the operator nodes and the helpers they call run operator arithmetic too when
+	// they fold constants at parse time
+	for f := range seenCtor {
+		add(declOf[f], 1)
+	}
 	sort.Slice(order, func(i, j int) bool { return order[i].Pos() < order[j].Pos() })
 	return typesSet, order
 }
@@ -821,6 +826,7 @@ func c03Truth(r *Run, npkg, dpkg *packages.Package) {
 		}
 	}
 	c03BoolCast(r, asBoolIface, asBoolMethod)
+	c03TruthHelpers(r, npkg, asBoolIface, asBoolMethod)
 }
 
 // c03BoolCast: the (bool) conversion function is a boolean context like the others: it asks the
@@ -941,4 +947,112 @@ func callsGetValueOn(info *types.Info, body ast.Node, o types.Object) bool {
 
 func isErrorType(t types.Type) bool {
 	return types.Identical(t, types.Universe.Lookup("error").Type())
+}
+
+// c03TruthHelpers: a helper of package node that turns an operand into a bool through the truthiness
+// interface (operandAsBool(v) (bool, error)) is itself a boolean context: it has no arm for a concrete
+// value type (other than the bool value type, whose payload *is* its truth) in front of the interface
+// test — such an arm gives that kind of value a second truth rule, valid only where the helper is used.
+func c03TruthHelpers(r *Run, npkg *packages.Package, asBoolIface *types.Interface, asBoolMethod string) {
+	info := npkg.TypesInfo
+	isTruthIface := func(t types.Type) bool {
+		it, ok := t.Underlying().(*types.Interface)
+		return ok && types.Identical(it, asBoolIface)
+	}
+	concreteValue := func(t types.Type) string {
+		pt, ok := t.(*types.Pointer)
+		if !ok {
+			return ""
+		}
+		nt := namedOf(pt.Elem())
+		if nt == nil || nt.Obj().Pkg() == nil || nt.Obj().Pkg().Path() != modPath+"/data" || !strings.HasSuffix(nt.Obj().Name(), "Value") || nt.Obj().Name() == "BoolValue" {
+			return ""
+		}
+		return nt.Obj().Name()
+	}
+	for _, fd := range funcDecls(npkg) {
+		if fd.Body == nil || fd.Recv != nil || fd.Type.Params == nil || fd.Type.Results == nil {
+			continue
+		}
+		fn, _ := info.Defs[fd.Name].(*types.Func)
+		if fn == nil {
+			continue
+		}
+		sig := fn.Type().(*types.Signature)
+		if sig.Results().Len() == 0 {
+			continue
+		}
+		if b, ok := sig.Results().At(0).Type().Underlying().(*types.Basic); !ok || b.Kind() != types.Bool {
+			continue
+		}
+		// the operand parameter
+		var param types.Object
+		for i := 0; i < sig.Params().Len(); i++ {
+			pt := sig.Params().At(i).Type()
+			if isNamed(pt, modPath+"/data", "GetValue") || isNamed(pt, modPath+"/data", "Value") {
+				param = paramObjAt(info, fd, i)
+			}
+		}
+		if param == nil {
+			continue
+		}
+		truthAt, early := token.NoPos, token.NoPos
+		earlyWhat := ""
+		onParam := func(e ast.Expr) bool {
+			id, ok := ast.Unparen(e).(*ast.Ident)
+			return ok && info.Uses[id] == param
+		}
+		note := func(t types.Type, pos token.Pos) {
+			if isTruthIface(t) {
+				if truthAt == token.NoPos || pos < truthAt {
+					truthAt = pos
+				}
+			} else if w := concreteValue(t); w != "" {
+				if early == token.NoPos || pos < early {
+					early, earlyWhat = pos, w
+				}
+			}
+		}
+		ast.Inspect(fd.Body, func(n ast.Node) bool {
+			switch x := n.(type) {
+			case *ast.TypeAssertExpr:
+				if x.Type != nil && onParam(x.X) {
+					note(info.TypeOf(x.Type), x.Pos())
+				}
+			case *ast.TypeSwitchStmt:
+				subject := false
+				switch a := x.Assign.(type) {
+				case *ast.ExprStmt:
+					if ta, ok := ast.Unparen(a.X).(*ast.TypeAssertExpr); ok {
+						subject = onParam(ta.X)
+					}
+				case *ast.AssignStmt:
+					if len(a.Rhs) == 1 {
+						if ta, ok := ast.Unparen(a.Rhs[0]).(*ast.TypeAssertExpr); ok {
+							subject = onParam(ta.X)
+						}
+					}
+				}
+				if subject {
+					for _, c := range x.Body.List {
+						for _, te := range c.(*ast.CaseClause).List {
+							if tv, ok := info.Types[te]; ok && tv.IsType() {
+								note(tv.Type, c.Pos())
+							}
+						}
+					}
+				}
+			}
+			return true
+		})
+		if truthAt == token.NoPos {
+			continue // not a truth helper
+		}
+		key := funcKey(npkg, fd) + "#truth-helper"
+		if early != token.NoPos && early < truthAt {
+			r.bad(key, early, "this truthiness helper has an arm for "+earlyWhat+" in front of the truthiness interface: that kind of value is judged by a rule of its own where the helper is used (operands of || and &&) and by data."+asBoolMethod+" in if / while / ?: / ! / (bool), so the same value can be true in one context and false in another")
+		} else {
+			r.ok(key, fd.Pos(), "the helper decides through the truthiness interface first")
+		}
+	}
 }
